@@ -66,3 +66,44 @@ def behaviour(p, text):
            p.replace(text, '<>'), p.replace(text, '#', 1), p.replace(text, '', 2), p.split_by_match(text),
            p.split_by_capture(text), p.split_by_capture(text, False)]
     return out
+
+
+def documented_order(cls):
+    """Parameter names in the order the class *documents* them (':param <type> name:' lines of its docstring)."""
+    import re as _re
+    doc = cls.__doc__ or cls.__init__.__doc__ or ''
+    names = _re.findall(r':param\s+(?:[^:]*?\s)?\**(\w+):', doc)
+    out = []
+    for n in names:
+        if n not in out:
+            out.append(n)
+    return out
+
+
+def call_documented(cls, values, positional):
+    """Call cls with `values` (dict name -> value). positional=k passes the first k documented parameters positionally
+    (in the documented order) and the rest by keyword - both conventions must mean the same."""
+    order = [n for n in documented_order(cls) if n in values]
+    if len(order) != len(values):
+        positional = 0
+        order = list(values)
+    k = max(0, min(positional, len(order)))
+    # positional arguments must be a prefix of the documented signature: stop at the first documented name that is not given
+    full = documented_order(cls)
+    prefix = []
+    for n in full:
+        if n in values and len(prefix) < k:
+            prefix.append(n)
+        else:
+            break
+    args = [values[n] for n in prefix]
+    kwargs = {n: v for n, v in values.items() if n not in prefix}
+    import inspect
+    from pbt.common import Violation
+    try:
+        inspect.signature(cls).bind(*args, **kwargs)
+    except TypeError as e:
+        raise Violation('documented_signature', {'class': cls.__name__, 'positional': prefix, 'keywords': sorted(kwargs)},
+                        f'{cls.__name__} cannot be called as documented ({len(prefix)} leading parameters {prefix} positionally, '
+                        f'{sorted(kwargs)} by keyword): {e}')
+    return cls(*args, **kwargs)
